@@ -257,6 +257,16 @@ class World(object):
         t = self.slots[i].token
         return [j for j in self.live() if self.slots[j].token == t]
 
+    def caller_forgets(self, bad):
+        """The simulated caller stops naming an abandoned object as a register in its own Configs
+        (otherwise every later construction from them would deep-copy a half-written object)."""
+        for c in self.configs:
+            for f in REG_FIELDS:
+                r = getattr(c, '_' + f, None)
+                if isinstance(r, Fxp) and self.reg_reaches(r, bad):
+                    setattr(c, f, None)
+                    self.bump('caller_config_register_dropped')
+
     def reg_reaches(self, a, b, depth=0):
         """True iff object b is reachable from a through result-register fields (or a is b)."""
         if a is b or getattr(a, 'config', None) is getattr(b, 'config', 0):
@@ -418,6 +428,7 @@ class World(object):
                 self.kill(st.dest)
                 self.bump('abandoned_dest')
             self.slots[st.dest].tainted = True
+            self.caller_forgets(self.slots[st.dest].obj)
         self.log.append(self.log_entry(st))
         return st
 
@@ -534,6 +545,20 @@ class World(object):
         ncb = int(op.get('ncb') or 0)
         st.kind = 'construct'
         st.pure = True
+        busy = [self.slots[i].obj for i in self.inflight()]
+        if busy:
+            # inside a callback: a Config (the caller's, or the global template) whose registers
+            # lead to the object being written would make the constructor deep-copy it half-written
+            cfgs = []
+            if op.get('cfg') is not None and self.configs:
+                cfgs.append(self.configs[op['cfg'] % len(self.configs)])
+            if self.cfg_template is not None:
+                cfgs.append(self.configs[self.cfg_template])
+            for c in cfgs:
+                for f in REG_FIELDS:
+                    r = getattr(c, '_' + f, None)
+                    if isinstance(r, Fxp) and any(self.reg_reaches(r, b) for b in busy):
+                        raise Skip('config register in flight')
         tpl = self.template
         vals = None
         if val is not None and not (tpl is not None and (w is None or f is None)):
